@@ -385,8 +385,9 @@ func NewLocalReusableWorkflowCache(proj *Project, cwd string, dbg io.Writer) *Lo
 }
 
 func newNullLocalReusableWorkflowCache(dbg io.Writer) *LocalReusableWorkflowCache {
-	// Null cache. Cache never hits. It is used when project is not found
-	return &LocalReusableWorkflowCache{dbg: dbg}
+	// Null cache. Cache never hits. It is used when project is not found. The map must not be nil since
+	// the workflow call rule remembers invalid specs in it even when no project is found
+	return &LocalReusableWorkflowCache{cache: map[string]*ReusableWorkflowMetadata{}, dbg: dbg}
 }
 
 // LocalReusableWorkflowCacheFactory is a factory object to create a LocalReusableWorkflowCache
